@@ -74,6 +74,48 @@ def run(ctx, rep):
     rep.rule('R04.f', 'no unguarded may-panic site on the start-up path for crash-producible inputs', floor=40, analysis='A7')
     check_panics(ctx, rep, 'R04.f', sp.STARTUP_FNS, sp.PANICS)
 
+    # ------------------------------------------------------------ R04.h recovery discards the unindexed tail of the log
+    rep.rule('R04.h', 'the index entry is the commit marker of a batch: at load the log is cut back to the end of the last indexed batch when the file is longer, and the published size follows, before anything is appended behind a torn record', floor=5, analysis='A9+A3')
+    SEGL = 'server::streaming::segments::segment::Segment::load_from_disk'
+    BEP = rf.LR + '::batch_end_position'
+    if not ctx.has(BEP):
+        rep.ob('R04.h', SEGL, 'end of the last indexed batch is computed', False, None, 'SegmentLogReader::batch_end_position is gone: recovery no longer knows where the indexed part of the log ends')
+    else:
+        import forms as forms_
+        WANT = 'Option::filter(phi{0 | Option::None{} | SegmentLogReader::batch_end_position(self.log_reader, [T]::last(self.indexes).position)}, closure)'
+        sl = forms_.call_arg_forms(ctx, SEGL, 'set_len', skip_self=True, cd=3)
+        rep.ob('R04.h', SEGL, 'log truncated to the end of the last indexed batch', bool(sl) and all(f == WANT for _, f, _ in sl), None,
+               'set_len(%s)' % (sl[0][1] if sl else None) if sl and all(f == WANT for _, f, _ in sl) else 'load_from_disk does not truncate the log to the end of the last indexed batch (set_len argument: %s)' % ([f for _, f, _ in sl] or 'no set_len call'))
+        st = [f for _, f, _ in forms_.call_arg_forms(ctx, SEGL, 'Atomic::store', skip_self=False, cd=3) if f.startswith('self.log_size_bytes')]
+        okst = st == ['self.log_size_bytes, %s, Ordering::Release{}' % WANT]
+        rep.ob('R04.h', SEGL, 'published log size follows the truncation', okst, None, None if okst else 'log_size_bytes is stored as %s' % st)
+        lb_ = ctx.fn_body(SEGL)
+        sc = [c for c in lb_.calls if c.name.split('::')[-1] == 'set_len' and is_user_call(c)]
+        # only when shorter: the filter closure compares its argument with the file size
+        cl = [x for x in ctx.facts.body_defs() if x.startswith(SEGL + '::{closure')]
+        cmpf = set()
+        for x in cl:
+            cb_ = ctx.body(x)
+            for blk in sorted(cb_.reach):
+                for s_ in cb_.stmts(blk):
+                    if s_.get('lhs') == [0] and (s_.get('rv') or {}).get('r') == 'bin':
+                        cmpf.add(canon(cb_._pexpr_rvalue(s_['rv'], 0, frozenset())))
+        okf = any(re.match(r'^\(\w+ < log_size_bytes\)$', f) for f in cmpf)
+        rep.ob('R04.h', SEGL, 'only when the file is longer than its indexed part', okf, sc[0].where() if sc else None, None if okf else 'the truncation is not restricted to indexed size < file size (closure comparisons: %s)' % sorted(cmpf))
+        bb_ = ctx.fn_body(BEP)
+        rn = [c for c in bb_.calls if c.name == rf.LR + '::read_next_batch']
+        okr = bool(rn) and [canon(bb_.pexpr_operand(a), 0, 2) for a in rn[0].args] == ['self', 'position', 'SegmentLogReader::file_size(self)']
+        rep.ob('R04.h', BEP, 'reads the batch at the indexed position', okr, rn[0].where() if rn else None, None if okr else 'batch_end_position does not read the batch at the given position against the current file size')
+        ends = set()
+        for x in [y for y in ctx.facts.body_defs() if y.startswith(BEP + '::{closure')]:
+            cb_ = ctx.body(x)
+            for blk in sorted(cb_.reach):
+                for s_ in cb_.stmts(blk):
+                    if (s_.get('rv') or {}).get('r') == 'bin' and s_['rv']['op'].startswith('Add'):
+                        ends.add(canon(cb_._pexpr_rvalue(s_['rv'], 0, frozenset())))
+        oke = any(re.match(r'^\(\w+\.1 \+ position\)$', f) for f in ends)
+        rep.ob('R04.h', BEP, 'end = position + bytes read', oke, None, None if oke else 'batch end computed as %s' % sorted(ends))
+
     # ------------------------------------------------------------ R04.g the precondition the allowlisted slices of parse_index rely on
     rep.rule('R04.g', 'parse_index slices its argument at fixed positions up to INDEX_SIZE: every use receives a chunks_exact(INDEX_SIZE) chunk, so a torn trailing index record is skipped, never sliced', floor=3, analysis='A9 argument provenance')
     PI = 'server::streaming::segments::indexes::index_reader::parse_index'
